@@ -210,6 +210,20 @@ def gen_equality(rng):
 
     ops = base + twin
 
+    if rng.chance(0.1):
+        # an attribute assigned the object it already holds; attributes
+        # merely read on one of the twins: neither changes anything
+        path = rng.choice([[], [0], [0, 0]])
+        ops.append({'op': 'tweak', 'tree': 'T2', 'path': path,
+                    'attr': rng.choice(['meta', 'meta', 'preamble']
+                                       if len(path) < 2 else
+                                       ['meta', 'diff']), 'how': 'self'})
+        ops.append({'op': 'getattrs', 'tree': 'T1', 'path': path})
+        ops.append({'op': 'getattrs', 'tree': 'T1',
+                    'path': rng.choice([[], [0], [0, 0], [1]])})
+        ops.append({'op': 'eq', 'a': 'T1', 'b': 'T2'})
+        ops.append({'op': 'ne', 'a': 'T2', 'b': 'T1'})
+
     if rng.chance(0.08):
         # options that "should not matter" for a binary diff still make two
         # trees different (they are written to the header)
